@@ -5,32 +5,6 @@ import LPVerif.Lemmas.Core
 namespace LPVerif.Prof
 open LPVerif.Core
 
-/-- is thread `t`'s slot for `b` pending at line `l`? -/
-def pendOf (s : St) (t : Nat) (b : Blk) (l : Int) : Nat :=
-  if (s.core.abs.last t b).map Prod.fst = some l then 1 else 0
-
-/-- LINE events of `(b, l)` that reach the callback (tracing installed in their thread) and find the line registered -/
-def delivered : St → List Op → Blk → Int → Nat
-  | _, [], _, _ => 0
-  | s, op :: r, b, l =>
-    (match op with
-     | .ev e => if s.tracing e.t then ind s.core.abs.regs e b l else 0
-     | _ => 0) + delivered (s.step op) r b l
-
-/-- pending hits thrown away because `disable()` ran while the line was still executing -/
-def dropped : St → List Op → Blk → Int → Nat
-  | _, [], _, _ => 0
-  | s, op :: r, b, l =>
-    (match op with
-     | .disable t => pendOf s t b l
-     | .disableBC t => if s.count t = 1 then pendOf s t b l else 0
-     | _ => 0) + dropped (s.step op) r b l
-
-def Op.thread : Op → Option Nat
-  | .enableBC t | .disableBC t | .enable t | .disable t => some t
-  | .ev e => some e.t
-  | _ => none
-
 /-! ### registration leaves the counters alone -/
 
 theorem regLine_same (code : Code) (acc : Core.ESt × List (Code × List (Blk × Int))) (l : Int) :
@@ -79,17 +53,6 @@ theorem pend_clearThread (s : Core.St) (t : Nat) (threads : List Nat) (b : Blk) 
 
 
 /-! ### one operation -/
-
-def delivStep (s : St) (op : Op) (b : Blk) (l : Int) : Nat :=
-  match op with
-  | .ev e => if s.tracing e.t then ind s.core.abs.regs e b l else 0
-  | _ => 0
-
-def dropStep (s : St) (op : Op) (b : Blk) (l : Int) : Nat :=
-  match op with
-  | .disable t => pendOf s t b l
-  | .disableBC t => if s.count t = 1 then pendOf s t b l else 0
-  | _ => 0
 
 theorem delivered_cons (s : St) (op : Op) (r : List Op) (b : Blk) (l : Int) :
     delivered s (op :: r) b l = delivStep s op b l + delivered (s.step op) r b l := by
